@@ -68,7 +68,8 @@ def plan(tier, seed):
 def required(tier):
     return {"subprocess_runs": 30, "multicore_runs_compared": 16, "records_compared_across_cores": 80, "inproc_identical_reruns": 4,
             "inproc_permuted_runs": 2, "inproc_subset_runs": 4, "history_variants_compared": 12, "fault_runs": 10,
-            "fault_positions_covered": 5, "fault_runs_multicore": 5, "injected_fault_runs": 3}
+            "fault_positions_covered": 5, "fault_runs_multicore": 5, "injected_fault_runs": 3,
+            "fault_runs_failing_block_finishes_last": 8, "fault_runs_single_locus_multicore": 1}
 
 
 def coverage_extra(tier, col):
@@ -379,15 +380,42 @@ def run_fault(tier, seed, spec, col):
     positions = [i for i in range(n) if i % spec["parts"] == spec["part"]]
     for bad in positions:
         ds = build(seed, spec["dataset"], "%s-%d" % (spec["name"], bad), bad_locus=bad)
-        for cores in (1, 3):
-            case = {"dataset": spec["dataset"], "program": "assemble", "bad_locus": bad, "cores": cores, "seed": seed}
+        inject = os.path.join(env.VERIF, "inject")
+        pyp = os.pathsep.join([inject] + os.environ.get("PYTHONPATH", "").split(os.pathsep))
+        bad_name = ds.loci[bad]["name"]
+        # schedules: the failing locus' block may finish first, in the middle or LAST (an exception of the last job to
+        # finish is the one a careless wait loop loses), so the failing locus is also made slow / the others slow
+        variants = [(1, None), (3, None), (3, "slow=%s:2500" % bad_name), (2, "slow=%s:2500" % bad_name), (3, "slowothers=%s:700" % bad_name)]
+        for cores, inj in variants:
+            case = {"dataset": spec["dataset"], "program": "assemble", "bad_locus": bad, "cores": cores, "seed": seed, "inject": inj}
             col.case(case, nontrivial=True)
-            rc, out, err = cli.run_subprocess(argv_for(ds, "assemble", cores=cores), timeout=WATCHDOG)
+            e = {"PYTHONPATH": pyp}
+            if inj:
+                e["MCHAP_VERIF_INJECT"] = inj
+                col.add_to_set("fault_schedules", inj.split("=")[0])
+            rc, out, err = cli.run_subprocess(argv_for(ds, "assemble", cores=cores), timeout=WATCHDOG, extra_env=e)
             col.count("subprocess_runs")
             col.count("fault_positions_covered" if cores == 1 else "fault_positions_covered_multicore")
+            if inj and inj.startswith("slow="):
+                col.count("fault_runs_failing_block_finishes_last")
             judge_fault(col, "assemble", cores, rc, out, err, ds, bad, case, "natural")
             if bad == positions[0] and cores == 1 and spec["part"] == 0:
                 col.sample({"fault_run": case, "exit_status": rc, "stderr_tail": err[-300:], "records_before_failure": len(cli.record_lines(out))})
+            if inj is None and cores == 3 and bad == positions[0]:
+                bed1 = os.path.join(ds.root, "one.bed")
+                L = ds.loci[bad]
+                datasets.write_bed(bed1, [(L["contig"], L["start"], L["stop"], L["name"])])
+                case1 = dict(case, what="single-locus targets, cores 2")
+                col.case(case1, nontrivial=True)
+                rc1, out1, err1 = cli.run_subprocess(argv_for(ds, "assemble", bed=bed1, cores=2), timeout=WATCHDOG, extra_env=e)
+                col.count("subprocess_runs")
+                col.count("fault_runs_single_locus_multicore")
+                col.count("fault_runs")
+                col.count("fault_runs_multicore")
+                if rc1 == 0:
+                    col.violation("failing-locus-not-reported", "assemble --cores 2 on a targets file holding only the failing locus %s exited 0 (%d records)" % (L["name"], len(cli.record_lines(out1))), case1)
+                elif rc1 == "timeout":
+                    col.violation("failing-locus-hangs-program", "assemble --cores 2 on a single failing locus did not exit within %d s" % WATCHDOG, case1)
         shutil.rmtree(ds.root, ignore_errors=True)
 
 
